@@ -209,6 +209,8 @@ def xref_model(r, ncls=None):
             (dm if m["static"] else vm).append(mm)
         if r.random() < 0.15:
             vm.append({"name": "abs", "ret": "V", "params": [], "access": A.ACC_PUBLIC | A.ACC_ABSTRACT, "code": None})
+        if r.random() < 0.1:
+            dm, vm = [], []        # a class without any method (fields only, or nothing): its DEX part may lack "<init>"
         classes.append({"desc": c["desc"], "access": 1, "super": c["super"], "interfaces": c["interfaces"], "source": None,
                         "sfields": [{"name": f["name"], "type": f["type"], "access": 9} for f in c["fields"] if f["static"]],
                         "ifields": [{"name": f["name"], "type": f["type"], "access": 1} for f in c["fields"] if not f["static"]],
@@ -268,8 +270,12 @@ class _Structured:
                 d2 = r.choice(self.locals)
                 self.emit("move-result", "", d2)
                 self.emit("binop", "add", d, d, d2)
-        elif k < 0.95:
+        elif k < 0.93:
             self.emit("sget", "", d, ["Lext/U;", "g", "I"])
+        elif k < 0.95:
+            # string constants beyond ASCII (escaping must not depend on the locale of the process)
+            self.emit("const-string", self.obj_reg, r.choice(["caf\u00e9", "\u4e2d\u6587", "a\u0301", "\u00df\u00fc", "tab\tq\"uote", "\U0001F600"]))
+            self.emit("invoke", "static", [self.obj_reg], ["Lext/U;", "use", "V", [OBJ]])
         else:
             # an object register defined with two different types on two paths, then used: its declared type has to be
             # chosen among the types of its definitions
